@@ -75,7 +75,16 @@ where
     let n = cases.len();
     let mut out = Vec::new();
     let mut next = 0usize;
+    let mut hangs = 0usize;
     while next < n {
+        if hangs >= 6 {
+            // every hung case leaves a spinning thread behind: stop executing, the
+            // remaining cases are reported as not run (the judge skips them)
+            for c in cases[next..].iter() {
+                out.push(json!({"st": "notrun", "case": c.clone()}));
+            }
+            break;
+        }
         let (tx, rx) = channel();
         let cs = cases.clone();
         let ff = f.clone();
@@ -99,20 +108,21 @@ where
                 }
                 Ok((i, Err(msg))) => {
                     // a panic outside a guarded call: still data, but flagged
-                    out.push(json!({"harness_panic": msg, "case": cases[i].clone()}));
+                    out.push(json!({"st": format!("harness_panic:{msg}"), "case": cases[i].clone()}));
                     next = i + 1;
                     if next == n {
                         break;
                     }
                 }
                 Err(RecvTimeoutError::Timeout) => {
-                    out.push(json!({"hang": true, "case": cases[next].clone()}));
+                    out.push(json!({"st": "hang", "case": cases[next].clone()}));
+                    hangs += 1;
                     next += 1;
                     break;
                 }
                 Err(RecvTimeoutError::Disconnected) => {
                     if next < n {
-                        out.push(json!({"harness_panic": "worker vanished", "case": cases[next].clone()}));
+                        out.push(json!({"st": "harness_panic:worker vanished", "case": cases[next].clone()}));
                         next += 1;
                     }
                     break;
